@@ -34,11 +34,15 @@ Open Scope N_scope.
 Definition sb := (N * batch)%type.
 Definition sb_rows (l : list sb) : list row := rows_of (map snd l).
 
-Record wentry := mkWe { we_seq : N; we_b : batch; we_len : N (* IPC payload bytes *) }.
-Definition we_sb (e : wentry) : sb := (we_seq e, we_b e).
+(* a write request: the batch, the length of its IPC encoding, and
+   get_array_memory_size() of the batch decoded back from that encoding (the
+   replayed copy occupies memory differently from the original) *)
+Record wreq := mkReq { rq_b : batch; rq_len : N; rq_rsize : N }.
 
-(* a write request: the batch and the length of its IPC encoding *)
-Definition wreq := (batch * N)%type.
+Record wentry := mkWe { we_seq : N; we_b : batch; we_len : N; we_rsize : N }.
+(* the batch as ensure_wal decodes it from the entry *)
+Definition we_sb (e : wentry) : sb :=
+  (we_seq e, mkBatch (b_schema (we_b e)) (b_rows (we_b e)) (we_rsize e)).
 
 Record dcfg := mkDcfg { dc_c : cfg; dc_max_seg : N (* WalConfig::max_segment_size *) }.
 
@@ -92,7 +96,7 @@ Definition max_seq_of (d : durable) : N :=
 (* WriteAheadLog::append_payload *)
 Definition wal_append (c : dcfg) (d : durable) (v : volatile) (r : wreq) : durable * volatile * sb :=
   let seq := v_next v in
-  let e := mkWe seq (fst r) (snd r) in
+  let e := mkWe seq (rq_b r) (rq_len r) (rq_rsize r) in
   let esz := entry_size e in
   let rot := (0 <? dc_max_seg c) && (dc_max_seg c <? v_size v + esz) in
   let segs := if rot then d_segs d ++ [d_active d] else d_segs d in
@@ -100,7 +104,7 @@ Definition wal_append (c : dcfg) (d : durable) (v : volatile) (r : wreq) : durab
   let sz := if rot then 0 else v_size v in
   (mkD segs (act ++ [e]) (d_flushed d) (d_cat d),
    mkV (v_buf v) (v_lws v) (v_lfs v) (seq + 1) (sz + esz) (v_dropped v),
-   (seq, fst r)).
+   (seq, rq_b r)).
 
 (* WriteAheadLog::truncate_before over the closed segments: remove leading
    segments whose last seq is < bound; an empty segment file is skipped (kept);
@@ -150,6 +154,7 @@ Inductive dpc :=
 | QWal (r : wreq)                        (* before the WAL append                                   *)
 | QSeq (e : sb)                          (* appended (pause: after_wal_append); before the seq store *)
 | QLock (e : sb)                         (* stored (pause: after_seq_store); before the buffer lock  *)
+| QRelock (e : sb)                       (* schema-change flush done: `continue`, lock again         *)
 | QPut (bs : list sb) (k : dcont)        (* flush_batches: at the PUT                                *)
 | QReg (bs : list sb) (k : dcont)        (* at register_chunk                                        *)
 | QLoad (k : dcont)                      (* registered (pause: after_register); before the seq load  *)
@@ -196,7 +201,7 @@ Definition cont_live (k : dcont) : list sb :=
   match k with DRetry e => [e] | DRecover rest _ _ => rest | _ => [] end.
 Definition pc_live (p : dpc) : list sb :=
   match p with
-  | QSeq e | QLock e => [e]
+  | QSeq e | QLock e | QRelock e => [e]
   | QPut bs k | QReg bs k => bs ++ cont_live k
   | QLoad k | QTrunc _ k | QPersist _ k | QFin k => cont_live k
   | QScan rest _ _ => rest
@@ -262,7 +267,7 @@ Definition dw_finish (w : dwthread) (e : sb) (r : wres) : dwthread :=
 Definition dw_after (r : dfres) (w : dwthread) : dwthread :=
   match r with
   | GPc p => dw_set w p
-  | GOk (DRetry e) => dw_set w (QLock e)
+  | GOk (DRetry e) => dw_set w (QRelock e)
   | GOk (DDone e) => dw_finish w e ROk
   | GErr (DRetry e) | GErr (DDone e) => dw_finish w e RErr
   | GOk _ | GErr _ => dw_set w QIdle
@@ -275,14 +280,14 @@ Definition dwstep (c : dcfg) (f : fault) (d : durable) (v : volatile) (w : dwthr
       match dw_todo w with
       | [] => (d, v, w)
       | r :: rest =>
-          match b_rows (fst r) with
-          | [] => (d, v, mkDw QIdle rest (dw_res w ++ [((0, fst r), ROk)]))   (* zero-row batch: Ok, nothing stored *)
+          match b_rows (rq_b r) with
+          | [] => (d, v, mkDw QIdle rest (dw_res w ++ [((0, rq_b r), ROk)]))   (* zero-row batch: Ok, nothing stored *)
           | _ => (d, v, mkDw (QWal r) rest (dw_res w))
           end
       end
   | QWal r => let '(d', v', e) := wal_append c d v r in (d', v', dw_set w (QSeq e))
   | QSeq e => (d, set_lws v (fst e), dw_set w (QLock e))
-  | QLock e =>
+  | QLock e | QRelock e =>
       let bf := v_buf v in
       if negb (db_compatible bf e) then
         (d, set_vbuf v db_empty, dw_after (dbegin_flush (db_items bf) (DRetry e)) w)
@@ -364,8 +369,8 @@ Definition drstep (f : fault) (d : durable) (v : volatile) (p : dpc) : durable *
 (* ---------------- crash ---------------- *)
 Definition pc_batch (p : dpc) : option sb :=
   match p with
-  | QWal r => Some (0, fst r)
-  | QSeq e | QLock e => Some e
+  | QWal r => Some (0, rq_b r)
+  | QSeq e | QLock e | QRelock e => Some e
   | QPut _ (DRetry e) | QPut _ (DDone e) | QReg _ (DRetry e) | QReg _ (DDone e)
   | QLoad (DRetry e) | QLoad (DDone e) | QTrunc _ (DRetry e) | QTrunc _ (DDone e)
   | QPersist _ (DRetry e) | QPersist _ (DDone e) | QFin (DRetry e) | QFin (DDone e) => Some e
@@ -465,7 +470,8 @@ Definition known_class (c : dcfg) (todos : list (list wreq)) (ls : list dlabel) 
   ds_flag (drun c ls (dinit todos)).
 
 (* ---------------- steps at the granularity of the harness ---------------- *)
-Definition dw_parked (w : dwthread) : bool := match dw_pc w with QWal _ => false | _ => true end.
+Definition dw_parked (w : dwthread) : bool :=
+  match dw_pc w with QWal _ | QRelock _ => false | _ => true end.
 Definition dt_parked (s : dstate) : bool :=
   match ds_tm s with
   | QIdle => negb (ds_shut s)
